@@ -140,6 +140,7 @@ func runOnce(t *testing.T, job *Job, run uint64, rf *ReplayFile) (res RunResult,
 	} else {
 		st = simrt.NewStreams(job.Seed, run)
 	}
+	res.Override = job.Override
 	c := &Ctx{Job: job, St: st, Res: &res, Cfg: res.Config}
 	var sch *simrt.Sched
 	var swTail []string
@@ -286,8 +287,12 @@ func WorkerMain(t *testing.T) {
 	bw := bufio.NewWriter(out)
 	defer bw.Flush()
 	// silence the engine's debug printing
-	devnull, _ := os.OpenFile("/dev/null", os.O_WRONLY, 0)
-	os.Stdout = devnull
+	if os.Getenv("VERIF_ENGINE_STDOUT") == "" {
+		devnull, _ := os.OpenFile("/dev/null", os.O_WRONLY, 0)
+		os.Stdout = devnull
+	} else {
+		os.Stdout = os.Stderr // triage: the engine's own prints, interleaved with VERIF_TRACE lines
+	}
 	enc := json.NewEncoder(bw)
 	if job.Replay != "" {
 		rb, err := os.ReadFile(job.Replay)
